@@ -291,8 +291,22 @@ func evalTables(c *tablesCase, st *stats) *harness.Fail {
 		return harness.Failf("C09|TrakBox.GetNrSamples|count differs", "got %d, tables hold %d samples", got, n)
 	}
 
-	// ---- per sample
-	for nr := 1; nr <= n; nr++ {
+	// ---- per sample: in ascending order, then descending, then jumping between both ends (a lookup that follows
+	// another one far away in the table: the answers must not depend on what was asked before)
+	visit := func(n int) []int {
+		out := make([]int, 0, 3*n)
+		for i := 1; i <= n; i++ {
+			out = append(out, i)
+		}
+		for i := n; i >= 1; i-- {
+			out = append(out, i)
+		}
+		for lo, hi := 1, n; lo <= hi; lo, hi = lo+1, hi-1 {
+			out = append(out, hi, lo)
+		}
+		return out
+	}
+	for _, nr := range visit(n) {
 		u := uint32(nr)
 		*q += 7
 		dt, dur := stbl.Stts.GetDecodeTime(u)
@@ -371,7 +385,7 @@ func evalTables(c *tablesCase, st *stats) *harness.Fail {
 	if stbl.Co64 != nil {
 		offName = "Co64Box.GetOffset"
 	}
-	for cn := 1; cn <= nc; cn++ {
+	for _, cn := range visit(nc) {
 		*q += 3
 		if got := stbl.Stsc.GetSampleDescriptionID(cn); got != x.Chunks[cn].DescIdx {
 			return harness.Failf("C09|StscBox.GetSampleDescriptionID|description index differs", "GetSampleDescriptionID(%d) = %d, expansion %d (stsc %v)", cn, got, x.Chunks[cn].DescIdx, tb.Stsc)
